@@ -15,6 +15,7 @@ import torch
 
 from specs import treemodels, trees
 from vt import nf
+from vt.cond import Undecided
 from vt.runner import Ob, Refuted
 from vt.scenario import el, scenario_ob
 
@@ -233,13 +234,18 @@ def scn_ratio_cut(pair_index):
         tr._bounds = full_bounds
         try:
             state = c.prefix(tr, x)          # heights = x.clone(); bounds = self._bounds[taxa_count:]
-            h0 = state["heights"]
+            # temporaries by ROLE: "the heights" = the local the function returns; loop variables = the header's targets (parent, child)
+            ret0 = c.suffix(state)
+            HN = loopcut.local_by_role(state, lambda v: v is ret0, "the local holding the heights (the one the function returns)", exclude=c.params)
+            if len(c.target_names) != 2:
+                raise Undecided("loop target is no longer a (parent, child) pair: %s" % c.header)
+            h0 = state[HN]
             h0_copy = h0.clone() if not mk.symbolic else ST(h0.a.copy())
-            state.update(parent_id=parent_id, id_=id_)
+            state.update(dict(zip(c.target_names, (parent_id, id_))))
             tag, st2 = c.body(state)
         finally:
             tr._bounds = saved
-        h1 = st2["heights"]
+        h1 = st2[HN]
         cl = [("true", "loop_shape", c.kind == "for" and tag == "next", c.header)]
         hp = el(h0_copy, (parent_id,))
         new = el(h1, (id_,))
